@@ -14,7 +14,7 @@ pub fn def() -> PropDef {
         job_level,
         run_job,
         replay,
-        rule: "configs: key-producing base forms {x, S-x, C-S-x, (multi lctl x), (unmod x), (unshift x), use-defsrc, _ over a lower layer} wrapped 0..2 times (quick: 0..1 at depth D, 2 at D-1) in {multi, tap-hold tap slot, tap-hold hold slot, tap-dance, one-shot, fork left/right, switch case, v1 chord, v2 chord}, on 1-2 layers (subject key a; b in {plain b, lsft}; c = layer-while-held) with and without a defoverrides entry on the produced key; plus curated 3-layer configs with two layer keys. Histories: ALL physically consistent histories of D steps over {press, release, repeat of a and b; press/release c; tick 1; tick 6} (repeats at every point, also while a tap-hold is pending). Safety oracle on EVERY repeat step: at most one output event, it is a repeat, and its key is in the OS-down set before the step. Completeness oracle at every leaf where exactly one non-layer physical key p is down: settle 45 ticks; if the OS-down set D is non-empty, a repeat of p must emit a repeat for a member of D, and (for output chords, whose modifiers are listed first) for the non-modifier member. The probe applies only while no layer key has been released since p's first press (layers activated later leave the action's layer active) (the property speaks of actions on the active layers).",
+        rule: "configs: key-producing base forms {x, S-x, C-S-x, (multi lctl x), (unmod x), (unshift x), use-defsrc, _ over a lower layer} wrapped 0..2 times (quick: 0..1 at depth D, 2 at D-1) in {multi, tap-hold tap slot, tap-hold hold slot, tap-dance, one-shot, fork left/right, switch case, v1 chord, v2 chord}, on 1-2 layers (subject key a; b in {plain b, lsft}; c = layer-while-held) with and without a defoverrides entry on the produced key; plus curated 3-layer configs with two layer keys; plus an override-chain family (subject forms that can produce x or y, chained defoverrides whose outputs depend on held lctl / lsft, the modifiers being plain keys held together with the subject). Histories: ALL physically consistent histories of D steps over {press, release, repeat of a and b; press/release c; tick 1; tick 6} (repeats at every point, also while a tap-hold is pending). Safety oracle on EVERY repeat step: at most one output event, it is a repeat, and its key is in the OS-down set before the step. Completeness oracle at every leaf where exactly one non-layer physical key p is down: settle 45 ticks; if the OS-down set D is non-empty, a repeat of p must emit a repeat for a member of D, and (for output chords, whose modifiers are listed first) for the non-modifier member. The probe applies only while no layer key has been released since p's first press (layers activated later leave the action's layer active) (the property speaks of actions on the active layers).",
         assumptions: &["D is attributed to p because every other held physical key is a pure layer key", "sequence mode is not entered in these configs (covered for safety by C02/C12)"],
         required_level,
         min_outcomes: 3,
@@ -26,6 +26,8 @@ struct Job {
     cfg: String,
     keys: Vec<&'static str>,
     layer_keys: Vec<&'static str>,
+    /// physical keys mapped to a plain modifier: they may be held together with the probed key
+    mod_keys: Vec<&'static str>,
     depth: usize,
     level: u32,
 }
@@ -129,14 +131,30 @@ fn jobs(tier: Tier) -> &'static Vec<Job> {
                 }
                 for (b, two, ua, ovr) in variants {
                     let cfg = build(f, b, two, ua, ovr, c1, c2);
-                    v.push(Job { tag: format!("{tag}/b={b}/{}{}", if two { "2L" } else { "1L" }, if ovr { "/ovr" } else { "" }), cfg, keys: vec!["a", "b", "c"], layer_keys: if two { vec!["c"] } else { vec![] }, depth, level: lvl });
+                    v.push(Job { tag: format!("{tag}/b={b}/{}{}", if two { "2L" } else { "1L" }, if ovr { "/ovr" } else { "" }), cfg, keys: vec!["a", "b", "c"], layer_keys: if two { vec!["c"] } else { vec![] }, mod_keys: vec![], depth, level: lvl });
                 }
                 if uses_trans && c1.is_none() && c2.is_none() {
                     // the form (containing _) on the upper layer, falling through to x / S-x on the base layer
                     for lower in ["x", "S-x"] {
                         let cfg = format!("(defcfg process-unmapped-keys no)\n(defsrc a b c)\n(deflayer base {lower} b (layer-while-held up))\n(deflayer up {f} _ _)\n");
-                        v.push(Job { tag: format!("{tag}/upper-over-{lower}"), cfg, keys: vec!["a", "b", "c"], layer_keys: vec!["c"], depth, level: lvl });
+                        v.push(Job { tag: format!("{tag}/upper-over-{lower}"), cfg, keys: vec!["a", "b", "c"], layer_keys: vec!["c"], mod_keys: vec![], depth, level: lvl });
                     }
+                }
+            }
+            // override-chain family: the produced key depends on held modifiers through chained
+            // overrides; b = lctl and c = lsft are plain modifier keys (held together with the subject)
+            for (ftag, form) in [
+                ("th", "(tap-hold 5 5 x y)"),
+                ("th-press", "(tap-hold-press 5 5 x y)"),
+                ("td", "(tap-dance 5 (x y))"),
+                ("fork", "(fork x y (lsft))"),
+                ("switch", "(switch ((input real c)) y break () x break)"),
+                ("key-x", "x"),
+                ("key-y", "y"),
+            ] {
+                for (otag, ovr) in [("chain-sc", "(defoverrides (lsft x) (lsft y) (lctl y) (lctl z))"), ("chain-cs", "(defoverrides (lctl x) (lctl y) (lsft y) (lsft z))"), ("two", "(defoverrides (lctl x) (lctl w) (lctl y) (lctl z))")] {
+                    let cfg = format!("(defcfg process-unmapped-keys no)\n(defsrc a b c)\n(deflayer base {form} lctl lsft)\n{ovr}\n");
+                    v.push(Job { tag: format!("ovr-chain/{ftag}/{otag}"), cfg, keys: vec!["a", "b", "c"], layer_keys: vec![], mod_keys: vec!["b", "c"], depth: d + 1, level: lvl });
                 }
             }
             // curated 3-layer configs with two layer keys
@@ -148,7 +166,7 @@ fn jobs(tier: Tier) -> &'static Vec<Job> {
                 ("3L-th", "(tap-hold 5 5 x lsft)", "y", "(tap-hold 5 5 z lctl)"),
             ] {
                 let cfg = format!("(defcfg process-unmapped-keys no)\n(defsrc a b c)\n(deflayer l0 {l0} (layer-while-held l1) (layer-while-held l2))\n(deflayer l1 {l1} _ _)\n(deflayer l2 {l2} _ _)\n");
-                v.push(Job { tag: format!("curated/{tag}"), cfg, keys: vec!["a", "b", "c"], layer_keys: vec!["b", "c"], depth: d + 1, level: lvl });
+                v.push(Job { tag: format!("curated/{tag}"), cfg, keys: vec!["a", "b", "c"], layer_keys: vec!["b", "c"], mod_keys: vec![], depth: d + 1, level: lvl });
             }
         }
         v
@@ -205,7 +223,8 @@ fn check(j: &Job, hist: &[Ev], down: &[u16], first_new: usize, st: &mut Stats) -
     }
     // completeness probe
     let layer_codes: Vec<u16> = j.layer_keys.iter().map(|k| kc(k)).collect();
-    let nonlayer: Vec<u16> = down.iter().copied().filter(|c| !layer_codes.contains(c)).collect();
+    let mod_codes: Vec<u16> = j.mod_keys.iter().map(|k| kc(k)).collect();
+    let nonlayer: Vec<u16> = down.iter().copied().filter(|c| !layer_codes.contains(c) && !mod_codes.contains(c)).collect();
     // the layer context must be the one under which p was pressed: no layer key toggled since p's press
     let layer_ctx_unchanged = |p: u16| -> bool {
         // (first press: multi-press actions such as tap-dance are bound to the layer of their first press)
@@ -218,7 +237,10 @@ fn check(j: &Job, hist: &[Ev], down: &[u16], first_new: usize, st: &mut Stats) -
         if let Err(m) = s.step(Ev::T(45)) {
             return Some((panic_signature(&m), m));
         }
-        let d = crate::sim::os_down_set(&s.trace());
+        let d_all = crate::sim::os_down_set(&s.trace());
+        // what the held plain-modifier keys put down themselves is not attributed to p
+        let held_mod_out: Vec<&str> = j.mod_keys.iter().filter(|k| down.contains(&kc(k))).map(|k| if *k == "b" { "LCtrl" } else { "LShift" }).collect();
+        let d: Vec<String> = if j.mod_keys.is_empty() { d_all.clone() } else { d_all.iter().filter(|x| !held_mod_out.contains(&x.as_str())).cloned().collect() };
         if !d.is_empty() {
             let n0 = s.n_out();
             if let Err(m) = s.step(Ev::Rep(p)) {
@@ -233,8 +255,8 @@ fn check(j: &Job, hist: &[Ev], down: &[u16], first_new: usize, st: &mut Stats) -
                     return Some(("completeness::no-repeat".into(), format!("only physical key down produces {d:?} at the OS, but its repeat emitted nothing ({new:?})")));
                 }
                 Some(k) => {
-                    if !d.contains(&k) {
-                        return Some((format!("safety::repeat-for-key-that-is-up::{k}"), format!("probe: repeat emitted for {k}, down set {d:?}")));
+                    if !d_all.contains(&k) {
+                        return Some((format!("safety::repeat-for-key-that-is-up::{k}"), format!("probe: repeat emitted for {k}, down set {d_all:?}")));
                     }
                     // "preferring the last-listed key of a chord over its modifiers": checked for output
                     // chords (modifiers listed first); a `multi` that lists a modifier last may repeat it
